@@ -50,6 +50,11 @@ def rng_test(test):
             return "given"
         if isinstance(op, (ast.Is, ast.Eq)):
             return "absent"
+    # `rng is not None and <condition that does not mention rng>`: the body is reached only with a generator; the else branch
+    # (and what follows) may be reached either way, which the caller treats as unguarded
+    if isinstance(test, ast.BoolOp) and isinstance(test.op, ast.And) and rng_test(test.values[0]) == "given" \
+            and not any(mentions_rng(v) for v in test.values[1:]):
+        return "given-and"
     return None
 
 
@@ -62,6 +67,7 @@ class MethodScan:
         self.cls, self.fn, self.path = cls, fn, path
         self.name = "%s.%s" % (cls, fn.name)
         self.sites = []
+        self.user_alias = set()        # local names bound to a user-supplied callable (possibly wrapped by functools.partial)
         args = [a.arg for a in fn.args.args]
         self.has_rng = "rng" in args or "rng" in [a.arg for a in fn.args.kwonlyargs]
         if fn.args.vararg or fn.args.kwarg:
@@ -85,6 +91,12 @@ class MethodScan:
                     self.err(s, "unsupported test on rng")
                 self.expr(s.test, guard)
                 self.body(s.body, guard)
+                self.body(s.orelse, guard)
+            elif t == "given-and":
+                for v in s.test.values[1:]:
+                    self.expr(v, guard)
+                if guard in ("GAlways", "GRngGiven"):
+                    self.body(s.body, "GRngGiven")
                 self.body(s.orelse, guard)
             else:
                 g_then = "GRngGiven" if t == "given" else "GRngAbsent"
@@ -114,6 +126,24 @@ class MethodScan:
             if s.value is not None:
                 if _is_np_random(s.value) or _is_name(s.value, "rng"):
                     self.err(s, "np.random / rng is aliased")
+                v = s.value
+                is_user = isinstance(v, ast.Attribute) and _is_name(v.value, "self") and v.attr in USER_CALLABLES
+                is_partial = (isinstance(v, ast.Call) and _is_name(v.func, "partial") and v.args
+                              and isinstance(v.args[0], ast.Attribute) and _is_name(v.args[0].value, "self") and v.args[0].attr in USER_CALLABLES)
+                if is_user or is_partial:
+                    if not (isinstance(s, ast.Assign) and len(s.targets) == 1 and isinstance(s.targets[0], ast.Name)):
+                        self.err(s, "user callable bound to something else than a local name")
+                    self.user_alias.add(s.targets[0].id)
+                    if is_partial:
+                        kws = [k for k in v.keywords if _is_name(k.value, "rng")]
+                        if len(v.args) != 1 or len(kws) != len(v.keywords) or any(k.arg != "rng" for k in kws) or len(kws) > 1:
+                            self.err(s, "unsupported partial(...) of a user callable")
+                        if kws:
+                            if guard != "GRngGiven":
+                                self.err(s, "rng bound into a user callable outside an `rng is not None` branch")
+                            # the user's function receives the generator; whether it draws from it is the user's business
+                            self.add("SRng", guard, "partial(self.%s, rng=rng)" % v.args[0].attr)
+                    return
                 self.expr(s.value, guard)
             return
         if isinstance(s, (ast.While, ast.For)):
@@ -218,6 +248,12 @@ class MethodScan:
                     self.err(c, "rng handed to a user callable")
                 self.add("SOpaque", guard, "self." + f.attr)
                 return
+        if isinstance(f, ast.Name) and f.id in self.user_alias:
+            if passes_rng:
+                self.err(c, "rng handed positionally to a user callable")
+            # statically this may be the bare user function (which cannot receive rng): opaque
+            self.add("SOpaque", guard, f.id + "()")
+            return
         if passes_rng:
             self.err(c, "rng handed to %s, which is not a sampling method" % ast.unparse(f))
         # any other call: arguments are visited by the enclosing ast.walk
